@@ -27,6 +27,9 @@ sets because the library iterates over sets of strings, whose order changes with
                   3-4 workers, wave schedule (all workers ask, then the trials run to their rung level one by one)
   random          random interleavings of suggest / report / failure / self-completion, random searcher
   gp              the same with searcher="bayesopt" x searcher_data x register_pending_myopic x brackets 1..3
+  dyhpo           searcher="dyhpo", type="dyhpo" (linear rung levels 1..5 / 2,4,6, initial-random phase, so DyHPO always
+                  proposes a new trial and trials are resumed by its successive-halving branch only): both modes x all
+                  data policies; the pause / told-to-run-to / resumed-trial-is-paused clauses and all C14 clauses
   pasha_directed  metric tables built so that the soft ranking changes although the first displaced position is still
                   inside the epsilon band (epsilon > 0 from two curves that cross and cross back); twin run
   pasha_curves    noisy crossing learning curves; twin run (mode=min on f / mode=max on -f)
@@ -270,7 +273,10 @@ class Sim:
     def __init__(self, spec, rec, lib):
         self.spec, self.rec, self.lib = spec, rec, lib
         self.type, self.mode = spec["type"], spec["mode"]
-        self.promo = self.type in PROMO_TYPES
+        self.promo = self.type in PROMO_TYPES  # the C04 suggest clauses apply
+        # pause-and-resume semantics (DyHPO pauses at every rung level like ASHA, but decides promotions differently:
+        # only the pause / told-to-run-to / resumed-trial-is-paused clauses and the C14 clauses apply to it)
+        self.pauses = self.promo or self.type == "dyhpo"
         self.cost = self.type == "cost_promotion"
         self.rush_k = spec.get("rush_k", 0) if self.type == "rush_promotion" else 0
         rung = spec["rung"]
@@ -281,7 +287,7 @@ class Sim:
         self.per_bracket = bool(spec["per_bracket"])
         self.mra, self.ckpt = bool(spec["mra"]), bool(spec["ckpt"])
         self.policy, self.myopic = spec["searcher_data"], bool(spec["myopic"])
-        self.bayes = spec["searcher"] == "bayesopt"
+        self.bayes = spec["searcher"] in ("bayesopt", "dyhpo")  # searcher with a TuningJobState to inspect
         tk = spec["table"]
         self.table = make_table(tk["kind"], tk["seed"], self.max_t, tk.get("arg"))
         if tk["kind"] == "pasha_directed" and self.mode == "max":
@@ -334,6 +340,8 @@ class Sim:
             kw["cost_attr"] = COST
         if self.type == "rush_promotion":
             kw["rung_system_kwargs"] = {"num_threshold_candidates": self.rush_k}
+        if self.type == "dyhpo":
+            kw["rung_system_kwargs"] = {"probability_sh": spec.get("probability_sh", 0.25)}
         if self.bayes:
             kw["search_options"] = {"num_init_random": 10 ** 6, "debug_log": False, "map_reward": "minus_x"}
         else:
@@ -457,7 +465,7 @@ class Sim:
                     if any(s["n"] > 1 for s in ties):
                         self.ambiguous = True
                 rec.check(self.c_cap_new, fm <= cap, self.ctx, first_milestone=fm, cap=cap, bracket=b)
-            if self.mra and self.promo:
+            if self.mra and self.pauses:
                 rec.check(C_TOLD_NEW, sug.config.get(MRA) == fm, self.ctx, told=sug.config.get(MRA), expected=fm)
             self.twin_cmp("suggest", self._sug_key(sug), self._sug_key(sug2))
             trial = L["Trial"](trial_id=nid, config=dict(sug.config), creation_time=datetime(2024, 1, 1))
@@ -486,6 +494,28 @@ class Sim:
                   promoted_before=None if e is None else e["promoted"])
         rec.cover["resume"] += 1
         sysidx = t["sysidx"]
+        if self.promo:
+            self._resume_eligibility(T, t, r, entries, e, sysidx, cap)
+        nx = self.nxt(r)
+        rec.check(C_CAP, nx <= cap <= self.max_t, self.ctx, target=nx, cap=cap, max_t=self.max_t)
+        if self.mra:
+            cfg = sug.config
+            ok = cfg is not None and cfg.get(MRA) == nx and all(
+                cfg.get(k) == v for k, v in t["config0"].items() if k != MRA)
+            rec.check(C_TOLD_RES, ok, self.ctx, told=cfg, expected_target=nx, original=t["config0"])
+        e["promoted"] = True
+        t.update(state="running", m=nx, resume_from=r, last=r, next=(r + 1 if self.ckpt else 1))
+        t["start"] = t["next"]
+        if sug.config is not None:
+            t["trial"].config = dict(sug.config)
+        if self.twin is not None and sug2 is not None and sug2.config is not None:
+            t["trial2"].config = dict(sug2.config)
+        self.twin_cmp("suggest", self._sug_key(sug), self._sug_key(sug2))
+        self.after_event(None)
+        return T
+
+    def _resume_eligibility(self, T, t, r, entries, e, sysidx, cap):
+        rec = self.rec
         sure, ties = self.admissible(sysidx, cap)
         stT = self.entry_status(r, entries, e)
         det = dict(trial=T, rung=self._dump(sysidx, r), status=stT)
@@ -498,13 +528,6 @@ class Sim:
         rec.check(C_RES_HIGH, sure is None or r >= sure["level"], self.ctx, resumed_from=r, eligible_higher=sure,
                   higher_rung=self._dump(sysidx, sure["level"]) if sure else None, **det)
         self._q0(sure, ties, r)
-        nx = self.nxt(r)
-        rec.check(C_CAP, nx <= cap <= self.max_t, self.ctx, target=nx, cap=cap, max_t=self.max_t)
-        if self.mra:
-            cfg = sug.config
-            ok = cfg is not None and cfg.get(MRA) == nx and all(
-                cfg.get(k) == v for k, v in t["config0"].items() if k != MRA)
-            rec.check(C_TOLD_RES, ok, self.ctx, told=cfg, expected_target=nx, original=t["config0"])
         if stT["status"] == "tie" or len(ties) > 0 or (sure is not None and len(sure["best"]) > 1):
             rec.cover["tie"] += 1
             # (a rung with a single entry is a tie for the C04 clauses, but no round-off is involved: the two runs of
@@ -512,16 +535,6 @@ class Sim:
             if (stT["status"] == "tie" and stT["n"] > 1) or any(s["n"] > 1 for s in ties) or (
                     sure is not None and len(sure["best"]) > 1):
                 self.ambiguous = True
-        e["promoted"] = True
-        t.update(state="running", m=nx, resume_from=r, last=r, next=(r + 1 if self.ckpt else 1))
-        t["start"] = t["next"]
-        if sug.config is not None:
-            t["trial"].config = dict(sug.config)
-        if self.twin is not None and sug2 is not None and sug2.config is not None:
-            t["trial2"].config = dict(sug2.config)
-        self.twin_cmp("suggest", self._sug_key(sug), self._sug_key(sug2))
-        self.after_event(None)
-        return T
 
     def _q0(self, sure, ties, resumed_level):
         """a rung whose promotion quantile is exactly 0.0 and whose best unpromoted trial is strictly better holds an
@@ -581,7 +594,7 @@ class Sim:
             t["last"] = l
         t["next"] = l + 1
         ended = None
-        if self.promo:
+        if self.pauses:
             if l >= self.max_t:
                 rec.check(C_MAXT, dec in ("STOP", "PAUSE"), self.ctx, trial=tid, level=l, decision=dec)
                 exp = dec
@@ -673,7 +686,9 @@ class Sim:
     def check_state(self, ended, reported, completed):
         rec = self.rec
         IM = self.lib["INTERNAL_METRIC_NAME"]
-        st = self.sched.searcher.state_transformer.state
+        searcher = self.sched.searcher
+        searcher = getattr(searcher, "_searcher_int", searcher)  # DyHPO wraps a GP multi-fidelity searcher
+        st = searcher.state_transformer.state
         ids = [e.trial_id for e in st.trials_evaluations]
         rec.check(D_ONE, len(ids) == len(set(ids)), self.ctx, trial_ids=ids)
         obs = {}
@@ -780,6 +795,8 @@ RUNGS = {
     "list": {"rung_levels": [1, 2, 5, 9], "max_t": 9},  # 1,2,5 (trailing max_t stripped)
     "g2e2.5m12": {"grace_period": 2, "reduction_factor": 2.5, "max_t": 12},  # 2,5
     "g3e2m24": {"grace_period": 3, "reduction_factor": 2, "max_t": 24},  # 3,6,12
+    "dy1m6": {"grace_period": 1, "rung_increment": 1, "max_t": 6},  # 1,2,3,4,5 (DyHPO: linear, grace == increment)
+    "dy2m8": {"grace_period": 2, "rung_increment": 2, "max_t": 8},  # 2,4,6
 }
 PASHA_RUNGS = ["g1e2m8", "g1e3m27", "g2e2m16", "g1i2m7", "list", "g3e2m24"]
 GRID5 = (-1.0, -0.25, 0.0, 0.5, 1.0)
@@ -870,6 +887,19 @@ def build_catalogue(tier, seed):
                                  sched_seed=s31(), table={"kind": pick(["generic", "signed"]), "seed": s31()},
                                  rush_k=int(rs.randint(0, 3)), p_fail=0.05, p_complete=0.08))
 
+    # F3b: DyHPO (searcher="dyhpo", type="dyhpo"): pause / told-to-run-to clauses and all C14 clauses --------------
+    for rep_ in range(3 if thorough else 1):
+        for mo in ("min", "max"):
+            for (pol, myo) in pols:
+                for ck in (True, False):
+                    for rn in ("dy1m6", "dy2m8"):
+                        cat.append(_base(family="dyhpo", type="dyhpo", mode=mo, rung_name=rn, brackets=1,
+                                         mra=bool(rs.rand() < 0.5), ckpt=ck, searcher="dyhpo", searcher_data=pol,
+                                         myopic=myo, workers=int(rs.randint(2, 5)), events=int(rs.randint(60, 100)),
+                                         ev_seed=s31(), sched_seed=s31(), probability_sh=pick([0.25, 0.6]),
+                                         table={"kind": pick(["generic", "signed", "ints"]), "seed": s31()},
+                                         p_fail=0.05, p_complete=0.08))
+
     # F4: PASHA, directed soft-ranking tables (epsilon band), twin run --------------------------------------
     for i in range(24 if thorough else 8):
         g = (2, 3)[i % 2]
@@ -928,16 +958,16 @@ def monitor_hyperband(tier="quick", seed=0):
         if rec.cover[k] == 0 and not cut_short:
             raise RuntimeError("coverage counter %r is zero (vacuous run)" % k)
     samples = []
-    for f in ("enum3", "random", "gp", "pasha_directed"):
+    for f in ("enum3", "random", "dyhpo", "pasha_directed"):
         s = next((x for x in cat if x["family"] == f), None)
         if s is not None:
             samples.append({k: s[k] for k in ("family", "type", "mode", "rung_name", "brackets", "mra", "ckpt",
                                               "searcher", "searcher_data", "workers", "schedule", "table")})
     summary = ("tier=%s seed=%d: %d scenarios %s on the real HyperbandScheduler; types promotion/pasha/rush_promotion/"
-               "cost_promotion (+stopping for the data clauses); 9 rung systems (2-3 rung levels, max_t<=27); "
+               "cost_promotion (+stopping and dyhpo for the data clauses); 11 rung systems (2-3 rung levels, max_t<=27); "
                "brackets 1..3 (shared and per-bracket rung systems; PASHA: 1); modes min/max; with/without "
                "max_resource_attr and checkpointing; 1..8 workers; <=130 events (enumerated 3-/4-tuples over %s in "
-               "3-4 waves; random interleavings incl. failures / self-completion); searcher random and bayesopt "
+               "3-4 waves; random interleavings incl. failures / self-completion); searcher random, bayesopt and dyhpo "
                "(GPMultiFidelitySearcher, initial-random phase) x searcher_data rungs/all/rungs_and_last x "
                "myopic on/off; coverage: %s; clause checks: %s"
                % (tier, seed, len(cat), fam, list(GRID5), rec.cover, {c: rec.count[c] for c in CLAUSES}))
